@@ -267,3 +267,23 @@ package protocol
 //@   requires #recv: p != nil
 //@   ensures #nonnil: result != nil && fresh(result)
 //@   modifies nothing
+
+// DM.INCR / DM.DECR as sent to another member: which operation, on which key, by how much.
+//@ ghost field redis.IntCmd.kind string
+//@ ghost field redis.IntCmd.dmap string
+//@ ghost field redis.IntCmd.key string
+//@ ghost field redis.IntCmd.delta int
+
+//@ func (i *Incr) Command(ctx context.Context) *redis.IntCmd
+//@   props C07
+//@   trusted
+//@   requires #recv: i != nil
+//@   ensures #what: result != nil && fresh(result) && result.kind == "dm.incr" && result.dmap == i.DMap && result.key == i.Key && result.delta == i.Delta
+//@   modifies nothing
+
+//@ func (d *Decr) Command(ctx context.Context) *redis.IntCmd
+//@   props C07
+//@   trusted
+//@   requires #recv: d != nil && d.Incr != nil
+//@   ensures #what: result != nil && fresh(result) && result.kind == "dm.decr" && result.dmap == d.Incr.DMap && result.key == d.Incr.Key && result.delta == d.Incr.Delta
+//@   modifies nothing
